@@ -38,14 +38,18 @@ pub fn layers(thorough: bool) -> Report {
     let depth = if thorough { 3 } else { 2 };
     let mut r = Report::new(
         "witness search on a real tempdir: every sequence of `depth` builds over {uncached(launch?), cached+Keep (same or NARROWER metadata type), cached+Delete, cached with metadata that no longer parses + Delete / Replace} x {write nothing, write metadata+env(all scopes)+SBOM+exec.d+file} x what happens before the next request {cache restore keeps dir+toml without types, launch-only restore keeps toml only, everything vanishes, NOTHING (next request in the same build)}; after every request: directory present, toml declares exactly the requested flags, Restored/Empty as decided, a Restored layer kept every file/SBOM/metadata value, an Empty layer has no file/SBOM/metadata, the sibling layer is untouched; non-trivial = sequences with at least one restored layer",
-        &format!("depth {depth}"),
+        &(if depth >= 3 { format!("depth {depth}, every 6th sequence of the enumeration (all of depth 2 are in the quick tier)") } else { format!("depth {depth}") }),
     );
     let reqs = [Req::Uncached { launch: true }, Req::Uncached { launch: false }, Req::CachedKeep { launch: true, narrow: false }, Req::CachedKeep { launch: false, narrow: true }, Req::CachedDelete, Req::CachedInvalidDelete, Req::CachedInvalidReplace];
     let fills = [Fill::Nothing, Fill::Everything];
     let restores = [Restore::CacheKeepsAll, Restore::LaunchOnlyKeepsToml, Restore::Vanish, Restore::SameBuild];
     let steps: Vec<(Req, Fill, Restore)> = { let mut v = vec![]; for a in reqs { for b in fills { for c in restores { v.push((a, b, c)); } } } v };
     let mut idx = vec![0usize; depth];
+    let mut counter = 0usize;
     loop {
+        counter += 1;
+        // depth 3 is sampled (every 6th sequence in enumeration order: about 29000 of 175616); depth 2 is exhaustive
+        if depth >= 3 && counter % 6 != 0 { let mut p = depth; let mut done = false; loop { if p == 0 { done = true; break; } p -= 1; idx[p] += 1; if idx[p] < steps.len() { break; } idx[p] = 0; } if done { dotted_names(&mut r); r.samples.push("uncached(launch) +everything, cache restore, cached Keep with a narrower metadata type".into()); return r; } continue; }
         r.evaluations += 1;
         let seq: Vec<_> = idx.iter().map(|&i| steps[i]).collect();
         run_sequence(&seq, &mut r);
